@@ -162,7 +162,9 @@ static int run(char **lines, long from, long to, const char *out)
 			dec(L.tok[1], a); dec(L.tok[2], b); dec(L.tok[5], c);
 			/* the format carries no conversion: the message is the format itself */
 			if (strchr(c, '%') || !c[0]) { fprintf(stderr, "h_log: format must be plain and non-empty\n"); return 2; }
-			qb_log_from_external_source(b, a, c, (uint8_t)vt_argi(&L, 4), (uint32_t)vt_argi(&L, 3), 0);
+			/* line numbers from 100 on: the call site passes a tag of its own (line - 100) */
+			qb_log_from_external_source(b, a, c, (uint8_t)vt_argi(&L, 4), (uint32_t)vt_argi(&L, 3),
+						    vt_argi(&L, 3) >= 100 ? (uint32_t)(vt_argi(&L, 3) - 100) : 0);
 			vt_ev(op); vt_text(a); vt_text(b); vt_i(vt_argi(&L, 3)); vt_i(vt_argi(&L, 4)); vt_text(c);
 			vt_res();
 			vt_lb();
